@@ -1422,6 +1422,14 @@ def rule_start_data(rep: Report, repo: Repo, all_programs: bool = True):
         e = canon(resolved(inline(resolved(e, env), scope), env))  # closure variables of an inlined helper are resolved too
         if not isinstance(e, ast.DictComp):
             return None
+        # a comprehension over a comprehension is one comprehension: {F(v) for v in [G(b) for b in B]} = {F(G(b)) for b in B}
+        if len(e.generators) == 1 and isinstance(e.generators[0].target, ast.Name) and not e.generators[0].ifs \
+                and norm(e.key) == e.generators[0].target.id \
+                and isinstance(e.generators[0].iter, (ast.ListComp, ast.GeneratorExp)) and len(e.generators[0].iter.generators) == 1 \
+                and not any(g_.ifs for g_ in e.generators[0].iter.generators):
+            inner_c = e.generators[0].iter
+            sub_ = {e.generators[0].target.id: inner_c.elt}
+            e = canon(ast.DictComp(key=resolved(e.key, sub_), value=resolved(e.value, sub_), generators=[clone(g_) for g_ in inner_c.generators]))
         k = e.key
         if isinstance(k, ast.BinOp) and isinstance(k.op, ast.Add) and isinstance(k.left, ast.Tuple) and norm(k.right) == ZO:
             lead = k.left.elts
